@@ -22,6 +22,9 @@ func init() {
 			c.Clause("C10-D4")
 			ruleSendWholeMessages(c)
 			ruleEncoderWrites(c)
+			if d := dispatchOrUndecided(c, "ROLE.dispatch"); d != nil {
+				ruleInvokeResultsMarshalled(c, d)
+			}
 		},
 	})
 }
